@@ -69,10 +69,99 @@ func init() {
 		if thorough {
 			nh, ncrc, nfiles, maxLen = 50, 65536, 200, 6000
 		}
-		return []CaseSet{genHeaders(r, nh, ncrc), genBursts(r, nfiles, maxLen, thorough), genAcceptedAnyReader(r, nfiles/2, maxLen), genHeaderMismatch(r, nfiles, maxLen), genVerdictSequences(r, nfiles, maxLen), genFiles(r, "encoded-files", "enc", 6*nfiles, fileKnobs{maxGroup: 4, fieldPct: 25})},
-			"headers: random field values x {matching CRC, " + strconv.Itoa(ncrc) + " stored CRCs, every single-byte corruption of every header byte, illegal sizes 0-255} through Header.CheckIntegrity, DecodeHeader and CheckIntegrity(headerOnly) (verdicts must agree); bursts: valid files (corpus + generated, both header sizes) x every start bit x window lengths 1-16 x patterns outside header bytes 0 and 4-7, plus value-targeted overwrites of aligned byte pairs (zero, all ones, swapped, checksum of the prefix, complement, ...) at the header fields, header CRC, record start and file CRC, through CheckIntegrity and Decode (must both reject); files whose 14-byte header does not match its stored non-zero CRC while the trailing file CRC was recomputed to fit (only the header CRC can reject them): CheckIntegrity, Decode, DecodeHeader and DecodeHeaderAndFileID must all reject; accepted files through CheckIntegrity and Decode behind readers that deliver 1, 2, 3, 7, 13, 4095 … bytes per call, short reads and data-with-EOF (a file Decode accepts must pass CheckIntegrity whatever the reader); sequences of 4-14 integrity calls in one process (CheckIntegrity header-only and full, DecodeHeader, Decode) over valid files of all three header layouts and corrupted ones: every verdict must be what the same call gives alone; Files through Encode in both byte orders and with both header sizes: what Encode writes must pass CheckIntegrity (full and header-only), Header.CheckIntegrity and Decode", false
+		return []CaseSet{genHeaders(r, nh, ncrc), genBursts(r, nfiles, maxLen, thorough), genAcceptedAnyReader(r, nfiles/2, maxLen), genHeaderMismatch(r, nfiles, maxLen), genVerdictSequences(r, nfiles, maxLen), genFiles(r, "encoded-files", "enc", 6*nfiles, fileKnobs{maxGroup: 4, fieldPct: 25}), genBigSkippedIntact(r), genBigSkippedBursts(r)},
+			"headers: random field values x {matching CRC, " + strconv.Itoa(ncrc) + " stored CRCs, every single-byte corruption of every header byte, illegal sizes 0-255} through Header.CheckIntegrity, DecodeHeader and CheckIntegrity(headerOnly) (verdicts must agree); bursts: valid files (corpus + generated, both header sizes) x every start bit x window lengths 1-16 x patterns outside header bytes 0 and 4-7, plus value-targeted overwrites of aligned byte pairs (zero, all ones, swapped, checksum of the prefix, complement, ...) at the header fields, header CRC, record start and file CRC, through CheckIntegrity and Decode (must both reject); files whose 14-byte header does not match its stored non-zero CRC while the trailing file CRC was recomputed to fit (only the header CRC can reject them): CheckIntegrity, Decode, DecodeHeader and DecodeHeaderAndFileID must all reject; accepted files through CheckIntegrity and Decode behind readers that deliver 1, 2, 3, 7, 13, 4095 … bytes per call, short reads and data-with-EOF (a file Decode accepts must pass CheckIntegrity whatever the reader); sequences of 4-14 integrity calls in one process (CheckIntegrity header-only and full, DecodeHeader, Decode) over valid files of all three header layouts and corrupted ones: every verdict must be what the same call gives alone; Files through Encode in both byte orders and with both header sizes: what Encode writes must pass CheckIntegrity (full and header-only), Header.CheckIntegrity and Decode; files holding one skipped record (unknown message, developer-data block) of 9 KB, 10 KB and 65025 bytes — larger than the decoder's read buffer — intact under three read schedules (accepted by both) and with bursts inside the skipped part (rejected by both)", false
 	}
 	propPost["C04"] = postC04
+}
+
+// bigSkippedFiles: valid files holding one record that the decoder does not decode but skips — a record
+// of an unknown message, or the developer-data block of a known one — larger than its 4 KiB read
+// buffer (about 9 KB, 10 KB and the largest a definition can describe, 65025 bytes), behind a few
+// small records so that the big one starts at different places in the buffer. Returned with the
+// byte range of the skipped part.
+func bigSkippedFiles(r *rng) (files [][]byte, spans [][2]int) {
+	mk := func(nf, fsz int, dev bool, lead int) {
+		var b recs
+		b.Write(fileIdRecs(4, 0))
+		b.def(defn{local: 1, global: 20, fields: []fdef{{3, 1, 0x02}}})
+		for i := 0; i < lead; i++ {
+			b.data(1, []byte{byte(60 + i)})
+		}
+		var d defn
+		if dev {
+			d = defn{local: 2, global: 20, devBit: true, fields: []fdef{{3, 1, 0x02}}}
+			for i := 0; i < nf; i++ {
+				d.dev = append(d.dev, ddesc{byte(i), byte(fsz), 0})
+			}
+		} else {
+			d = defn{local: 2, global: 0xFF30, fields: nil}
+			for i := 0; i < nf; i++ {
+				d.fields = append(d.fields, fdef{byte(i), byte(fsz), 0x0D})
+			}
+		}
+		b.def(d)
+		start := b.Len() + 1
+		if dev {
+			start++
+		}
+		payload := lcgBytes(uint64(r.next()), nf*fsz)
+		if dev {
+			payload = append([]byte{99}, payload...)
+		}
+		b.data(2, payload)
+		end := b.Len()
+		b.data(1, []byte{77})
+		fo := defaultFrame()
+		f := frame(b.Bytes(), fo)
+		files = append(files, f)
+		spans = append(spans, [2]int{int(f[0]) + start, int(f[0]) + end})
+	}
+	mk(36, 250, false, 3)
+	mk(40, 255, true, 40)
+	mk(255, 255, false, 0)
+	return
+}
+
+// genBigSkipped: the files above, intact (under three read schedules: what Decode accepts
+// CheckIntegrity accepts, and both accept these) ...
+func genBigSkippedIntact(r *rng) CaseSet {
+	cs := CaseSet{Name: "accepted-any-reader"}
+	files, _ := bigSkippedFiles(r)
+	for _, f := range files {
+		for _, sch := range []string{"-", "s:4096", "s:1000.3000.7"} {
+			for _, e := range []string{"integ", "decode"} {
+				cs.Cases = append(cs.Cases, decCase(e, "000", sch, "-", f))
+			}
+		}
+	}
+	return cs
+}
+
+// ... and with bursts of at most 16 bits inside the skipped part (both must reject)
+func genBigSkippedBursts(r *rng) CaseSet {
+	cs := CaseSet{Name: "bursts"}
+	files, spans := bigSkippedFiles(r)
+	for k, f := range files {
+		lo, hi := spans[k][0], spans[k][1]
+		for i := 0; i < 10; i++ {
+			b := append([]byte{}, f...)
+			start := (lo+r.intn(hi-lo-2))*8 + r.intn(8)
+			length := 1 + r.intn(16)
+			pat := uint32(r.next())&(1<<uint(length)-1) | 1
+			for j := 0; j < length; j++ {
+				if pat>>uint(j)&1 == 1 {
+					bit := start + j
+					b[bit/8] ^= 1 << uint(bit%8)
+				}
+			}
+			cs.Cases = append(cs.Cases, decCase([]string{"decode", "integ"}[i%2], "000", "-", "-", b))
+			if i < 3 {
+				cs.Cases = append(cs.Cases, decCase("decode", "000", "s:4096", "-", b))
+			}
+		}
+	}
+	return cs
 }
 
 func genHeaders(r *rng, nh, ncrc int) CaseSet {
